@@ -221,27 +221,38 @@ VG_LIMITS = {   # workload -> (driver, lines per shard quick, thorough, sampling
 }
 
 
-def memcheck_monitor(tier, seed, conn):
+# ---- monitor 5: MemorySanitizer over the portable 64-bit code (thorough: also the 32-bit-word code).  Neither the library nor the
+# drivers use a C++ runtime library, so the whole process is instrumented and MSan is sound here; the hand-written assembly is the one
+# thing it cannot see (memcheck above covers that).  About 3x, so it runs 10-20 times the lines memcheck can afford.
+MSAN_FACTOR = {'quick': 12, 'thorough': 8}
+
+
+def memcheck_monitor(tier, seed, conn, instrument='memcheck', cfgname='prod-g'):
     """runs in its own process, next to the other monitors; sends {'violations', 'events', 'lines', 'error'} through conn"""
     import importlib
     res = {'violations': [], 'events': {}, 'lines': 0, 'error': None}
+    tag = 'memcheck' if instrument == 'memcheck' else 'msan'
     try:
         quick = tier == 'quick'
         vg = shutil.which('valgrind')
-        if not vg:
+        if not vg and instrument == 'memcheck':
             raise harness.HarnessError('valgrind not found')
         vgargs = ['-q', '--error-exitcode=96', '--exit-on-first-error=yes', '--num-callers=16', '--undef-value-errors=yes']
         shards = [0, 1, 4, 9] if quick else list(range(16))
         for name, (drv, lq, lt, mode) in VG_LIMITS.items():
             mod = importlib.import_module(name)
-            exe = build.build_driver('prod-g', drv)
-            wrapped = (vg, vgargs + [exe])
+            exe = build.build_driver(cfgname, drv)
+            wrapped = (vg, vgargs + [exe]) if instrument == 'memcheck' else (exe, [])
+            if instrument != 'memcheck':
+                lq, lt = lq * MSAN_FACTOR['quick'], lt * MSAN_FACTOR['thorough']
             if name == 'c15':
                 ex = {'prod': wrapped, 'san': wrapped}
                 limited = ['prod', 'san']
             elif name == 'c17':
                 real = build.build_driver('prod-g', drv)
                 ex = {'san': (real, []), 'vg': wrapped, 'guard-end': (real, ['--guard-end'])}
+                if instrument != 'memcheck':
+                    continue        # C17's own buffer workload runs under memcheck and ASan; its guard-page modes need the production build
                 limited = ['vg']
             else:
                 ex = {'vg': wrapped}
@@ -255,15 +266,17 @@ def memcheck_monitor(tier, seed, conn):
             except harness.HarnessError as e:
                 # a judge that cannot cope with a partial answer set is the monitor's problem, not the library's
                 if 'memcheck' not in str(e):
-                    res['events']['memcheck-workload-incomplete|%s' % name.upper()] = 1
+                    res['events']['%s-workload-incomplete|%s' % (tag, name.upper())] = 1
             for v in sub.violations:
                 parts = v['key'].split(':')
                 if 'memcheck' in parts:
                     res['violations'].append(('vg:%s' % ':'.join(parts[parts.index('memcheck'):]), '[workload of %s under valgrind memcheck, production build] %s' % (name.upper(), v['what']), v['replay']))
+                elif 'msan' in parts:
+                    res['violations'].append(('msan:%s' % ':'.join(parts[parts.index('msan') + 1:]), '[workload of %s under MemorySanitizer, %s build] %s' % (name.upper(), cfgname, v['what']), v['replay']))
                 elif len(parts) > 1 and parts[1] == 'san':
-                    res['violations'].append(('vg:%s' % ':'.join(parts[2:]), '[workload of %s under valgrind] %s' % (name.upper(), v['what']), v['replay']))
-            n = int(sub.extra.get('limited_lines_run', 0))
-            res['events']['memcheck-workload|%s' % name.upper()] = max(1, n)
+                    res['violations'].append(('%s:%s' % ('vg' if instrument == 'memcheck' else 'msan-run', ':'.join(parts[2:])), '[workload of %s under %s] %s' % (name.upper(), 'valgrind' if instrument == 'memcheck' else 'MemorySanitizer', v['what']), v['replay']))
+            n = int(sub.extra.get('limited_lines_run', 0)) or int(sub.evaluations if instrument != 'memcheck' else 0)
+            res['events']['%s-workload|%s%s' % (tag, name.upper(), '' if instrument == 'memcheck' else '/' + cfgname)] = max(1, n)
             res['lines'] += n
     except Exception as e:
         import traceback
@@ -278,6 +291,12 @@ def run(ctx):
     parent_conn, child_conn = mp.Pipe(False)
     vgproc = mp.get_context('fork').Process(target=memcheck_monitor, args=(ctx.tier, ctx.seed, child_conn))
     vgproc.start()
+    msan_procs = []
+    for mcfg in (['p64-msan'] if ctx.quick else ['p64-msan', 'p32-msan']):
+        pc, cc = mp.Pipe(False)
+        pr = mp.get_context('fork').Process(target=memcheck_monitor, args=(ctx.tier, ctx.seed, cc, 'msan', mcfg))
+        pr.start()
+        msan_procs.append((mcfg, pr, pc))
     san_cfgs = ['san'] if ctx.quick else ['san', 'p32-san', 'gcc-san']
     # ---- monitor 2: untrusted buffers
     spec = {'san': ('san', 'scheme_drv.cpp', []), 'guard-end': ('prod', 'scheme_drv.cpp', ['--guard-end']), 'guard-start': ('prod', 'scheme_drv.cpp', ['--guard-start'])}
@@ -343,18 +362,33 @@ def run(ctx):
     for k, n in vres['events'].items():
         ctx.event(k.split('|')[0], k.split('|')[1], n=n)
     ctx.extra['memcheck_driver_lines'] = vres['lines']
+    # ---- monitor 5: collect the MemorySanitizer processes
+    for mcfg, pr, pc in msan_procs:
+        if not pc.poll(900 if ctx.quick else 7200):
+            pr.kill()
+            raise harness.HarnessError('MemorySanitizer monitor (%s) did not finish in time (inconclusive)' % mcfg)
+        mres = pc.recv()
+        pr.join(30)
+        if mres['error']:
+            raise harness.HarnessError('MemorySanitizer monitor failed: %s' % mres['error'])
+        for key, what, replay in mres['violations']:
+            ctx.violation(key, what, replay)
+        for k, n in mres['events'].items():
+            ctx.event(k.split('|')[0], k.split('|')[1], n=n)
+        ctx.extra['msan_driver_lines_%s' % mcfg] = mres['lines']
     ctx.rule = ('(1) the workloads of C01-C16 and C18 re-run under ASan+UBSan builds (clang; thorough: also 32-bit-word and gcc builds): any report or crash is a violation keyed by report kind and '
                 'library source location; (2) the Go-binding unmarshal protocol (exact-size heap copies, slot arrays of exactly the reported size) on valid buffers of every object kind and their '
                 'hostile neighbourhood (every truncation/extension class, first byte 0/1/2/255, bit flips, element garbage, random bytes up to 4 KiB), under ASan+UBSan and on the production build '
                 'with the buffer flush against PROT_NONE pages at either end; length discovery is compared with an independent statement of the format; accepted buffers must re-marshal; '
                 '(3) field/group/pairing operations with operands flush against guard pages (assembly routines), and the directed raw / prime-field vectors of C02/C03 (carry chains, compare-and-subtract arms, exact carry coincidences) through both x86 routine families and the direct assembly entry points with every operand in a guard-page arena; (4) thorough: libFuzzer (ASan+UBSan) over the same protocol; '
-                '(5) valgrind memcheck over the production build (-Ofast, assembly routines) on a bounded sample of every workload of C01-C17: uninitialised-value use and invalid accesses, also inside the assembly. '
+                '(5) valgrind memcheck over the production build (-Ofast, assembly routines) on a bounded sample of every workload of C01-C17: uninitialised-value use and invalid accesses, also inside the assembly; '
+                '(6) MemorySanitizer builds of the portable code (64-bit words; thorough also 32-bit words) on a 10x larger sample of the workloads of C01-C16 (the library and the drivers use no C++ runtime, so the whole process is instrumented). '
                 'class = (object kind, mutation label, verdict) / sanitized workload')
     ctx.extra['buffer_configs'] = cfgs
     ctx.extra['sanitizer_configs'] = san_cfgs
     ctx.assumptions = ['ASan sees heap/stack/global red zones only (intra-object overruns: C08 cursor monitor, C06 guard words)', 'Go bindings themselves are not executed; their allocation protocol is reproduced in C']
     need = ['length-discovery-sweep:wparams|c/firstbyte1', 'length-discovery-sweep:wsk|u/firstbyte1', 'length-discovery-sweep:wsk|c/firstbyte255', 'length-discovery-sweep:wparams|c/firstbyte1/around-2^16', 'length-discovery-sweep:wsk|u/firstbyte1/around-2^16', 'unmarshal:wsk|every-prefix', 'unmarshal:wparams|truncated', 'unmarshal:wsk|truncated', 'unmarshal:wsk|extended', 'unmarshal:wparams|valid/accepted', 'unmarshal:wsk|valid/accepted', 'unmarshal:wsk|first-byte-0', 'unmarshal:wparams|identity-element/accepted', 'unmarshal:wsk|identity-element', 'unmarshal:wsk|valid-misaligned/accepted', 'unmarshal:lid|valid-misaligned',
-            'guard-page:field-group-pairing|completed', 'guard-page:directed-vectors|guard-end/x86-baseline', 'guard-page:directed-vectors|guard-start/dispatch-default', 'memcheck-workload|C02', 'memcheck-workload|C11', 'memcheck-workload|C01', 'memcheck-workload|C17', 'memcheck-workload|C15', 'sanitized-workload:C11|san', 'sanitized-workload:C15|san', 'sanitized-workload:C02|san']
+            'guard-page:field-group-pairing|completed', 'guard-page:directed-vectors|guard-end/x86-baseline', 'guard-page:directed-vectors|guard-start/dispatch-default', 'memcheck-workload|C02', 'memcheck-workload|C11', 'memcheck-workload|C01', 'memcheck-workload|C17', 'memcheck-workload|C15', 'msan-workload|C11/p64-msan', 'msan-workload|C02/p64-msan', 'msan-workload|C15/p64-msan', 'sanitized-workload:C11|san', 'sanitized-workload:C15|san', 'sanitized-workload:C02|san']
     for r in need:
         if not any(k.startswith(r) for k in ctx.classes):
             ctx.required_classes.add(r)
